@@ -641,6 +641,21 @@ func checkWriteAdmission(p *Prog, r *Report) {
 			continue
 		}
 		construct := "kcp.Send(" + exprString(s.Call.Args[0]) + ")"
+		// the splitting loop extracted into a helper that only one function calls (and that touches no mutex): the
+		// admission is decided around that call, with the helper's receiver standing for the caller's
+		for k := 0; k < 3; k++ {
+			caller, call, okL := p.singleCaller(rootFuncInfo(s.Fn))
+			if !okL || p.bodyHasLockOp(rootFuncInfo(s.Fn)) {
+				break
+			}
+			sv := p.selfVar(rootFuncInfo(s.Fn))
+			ls := p.siteOf(call, caller)
+			if sv == nil || ls.Recv == nil || base.Op != "var" || base.Obj != types.Object(sv) {
+				break
+			}
+			base = ls.Recv
+			s = Site{Call: call, Fn: caller, Recv: ls.Recv, Args: ls.Args}
+		}
 		kcp := tFld(base, fKcp)
 		want := lt(normTerm(tCall(waitSnd, kcp)), p.F(kcp, "KCP", "snd_wnd"))
 		wantX := p.ExpandHelpers(want)
